@@ -930,7 +930,9 @@ class Summariser(object):
         if isinstance(st, (ast.For, ast.AsyncFor, ast.While)):
             if self.loops == "reject":
                 raise Unsupported("loop at line %d" % st.lineno)
-            k = self.ordinal.get(id(st), 0)
+            # loops are numbered in the order the path meets them (not by their place in the text): swapping the branches
+            # of an if that holds two alternative loops does not rename their symbols
+            k = 1 + sum(1 for e_ in p.effects if e_[0] == "loop")
             is_while = isinstance(st, ast.While)
             head = self.sub(p, st.test if is_while else st.iter)
             self.note_calls(p, head)
@@ -1402,6 +1404,16 @@ def alpha_rename(fnode, keep=(), prefix="v"):
     return [R().visit(st) for st in body]
 
 
+def _bound_names(node):
+    stmts = node.body if isinstance(node, (ast.FunctionDef, ast.AsyncFunctionDef)) else node
+    out = set()
+    for st in stmts:
+        for x in ast.walk(st):
+            if isinstance(x, ast.Name) and isinstance(x.ctx, (ast.Store, ast.Del)):
+                out.add(x.id)
+    return out
+
+
 def check_ref(ctx, rule, func, what, reference, construct, outcome=None, bool_calls=(), as_bool=False, analysis=None, alpha=False, where=None, **kw):
     """Obligation: `func` (a FuncInfo, FunctionDef or statement list) selects the same outcome as the reference snippet for
     every truth assignment of the branch atoms.  `reference` is source text in the function's own vocabulary; both sides
@@ -1411,9 +1423,17 @@ def check_ref(ctx, rule, func, what, reference, construct, outcome=None, bool_ca
     node0 = getattr(func, "node", func)
     ref0 = _ref_body(reference)
     ok, detail = False, ""
-    for use_alpha in ([False, True] if alpha == "auto" else [bool(alpha)]):
+    for use_alpha in ([False, "diff", True] if alpha == "auto" else [bool(alpha)]):
         node, ref = node0, ref0
-        if use_alpha:
+        if use_alpha == "diff":
+            # only the locals the two sides do not share are renamed (a renamed local, a new or dropped temporary)
+            na, nb = _bound_names(node), _bound_names(ref)
+            common = na & nb
+            if na == nb:
+                continue
+            node = alpha_rename(node, keep=common, prefix="u")
+            ref = alpha_rename(ref, keep=common, prefix="u")
+        elif use_alpha:
             node = alpha_rename(node)
             ref = alpha_rename(ref)
         pa = paths_of(node, qualname=getattr(where if where is not None else func, "qualname", ""), bool_calls=bool_calls, **kw)
